@@ -444,7 +444,24 @@ class Check:
         open(path, "w").write(body)
         return path
 
+    def _replay_filter(self):
+        """--replay <file>: the check is run again (same tier / seed) and only the violation recorded in the file counts:
+        exit 1 with its VIOLATION line if it shows again, exit 0 otherwise (the evidence file is not rewritten)."""
+        want = json.load(open(self.replay_arg))
+        keys = [k for k in ("kind", "text", "tokens", "lexeme", "sig", "family", "cause", "site", "ctx", "pair", "dev", "calls", "record", "msg")
+                if k in want and isinstance(want[k], (str, int, float, list))]
+        hits = [v for v in self.violations + [x[1] for x in self.known.values()] if all(v.get(k) == want[k] for k in keys)]
+        shutil.rmtree(self.work, ignore_errors=True)
+        if hits:
+            print(f"VIOLATION property={self.prop} replay={self.replay_arg}")
+            log("    reproduced:", json.dumps({k: hits[0].get(k) for k in keys}, ensure_ascii=False)[:600])
+            sys.exit(1)
+        log(f"[{self.prop}] replay: the recorded violation does not show on the current tree (matched on {keys})")
+        sys.exit(0)
+
     def finish(self):
+        if self.replay_arg:
+            self._replay_filter()
         wall = time.time() - self.t0
         for fid, (f, viol) in sorted(self.known.items()):
             print(f"KNOWN-FINDING: property={self.prop} {fid} {f.get('what', '')}")
